@@ -35,7 +35,7 @@ THEOREM_NOTES = {
                                      "coordinate and non-negative on boxes avoiding the origin), with C01_cells_tile_2d and C01_rates_nonneg_2d; "
                                      "tied by the exact group chain2d on density-table copulas; dimension 3 not proved (oracle only)",
 }
-LEVEL_TEXT = ("Proof: 12 Coq theorems (closed under the global context): for every admissible axis of any length, any middle function "
+LEVEL_TEXT = ("Proof: 14 Coq theorems (closed under the global context): for every admissible axis of any length, any middle function "
               "with the stated properties and any interval mass that is additive and non-negative away from the origin, the cells of the non-origin states tile "
               "[x_0,x_n] minus the central cell with shared end points and no overlap, every state lies in its cell, every rate is "
               ">= 0, and the sum of create_q_vector equals compute_intensity_of_jumps (telescoping); the truncated measure is the mass "
@@ -233,12 +233,16 @@ def correspond(res):
     _real_stream(res, rng, viol, 1 if not thorough else 4)
     _copula_stream(res, rng, viol)
     _param_pairs(res, rng, viol)
+    _copula_3d(res, rng, viol)
     groups.append(_table_chain_group(res, rng, viol, 4 if not thorough else 30))
 
     header = ("From Coq Require Import ZArith QArith Qabs List Bool.\nFrom RV Require Import Base.QB Model.Grid Gen.GenC01Trunc Model.Chain.\n"
               "Open Scope Q_scope.")
     res.case_lemmas += len(groups)
     for gname, ty, chk, cases in groups:
+        if not cases:
+            res.broke(f"correspondence {gname}", "the generator produced no case for this group")
+            continue
         bad, nshards = parallel_coq_bad(PROP, f"cases_{gname}", header, ty, chk, cases, shard=60)
         if bad:
             res.broke(f"correspondence {gname}", f"model and implementation differ on {len(bad)} case(s), first: {cases[bad[0]][:1500]}")
@@ -270,7 +274,11 @@ def _real_stream(res, rng, viol, scale):
                 try:
                     grids.append((name, f()))
                 except ValueError as e:
-                    res.bump("real_grid_ValueError", f"{fam}/{name}")
+                    from props.C13 import is_guard
+                    if is_guard(e):
+                        res.bump("real_grid_guard_ValueError", f"{fam}/{name}")
+                    else:      # not one of the constructors' argument guards: an uncontrolled failure, reported
+                        viol(f"grid constructor {name} raises an unexpected ValueError", kind="real-ctor", model=spec, grid=name, reason=str(e)[:160])
             add("uniform", lambda: CTMCUniformGrid(h=h, model=model))
             add("fixed", lambda: CTMCUniformGrid.create_from_fixed_nb_of_points(h=h, nb_of_points=rng.randrange(4, 40)))
             add("geometric", lambda: CTMCGridGeometric(h=h, model=model, nb_of_points_on_each_side=rng.randrange(2, 12)))
@@ -282,7 +290,7 @@ def _real_stream(res, rng, viol, scale):
             if fam in ("HEM", "MERTON", "VG") and rep == 0:
                 add("probstep", lambda: CTMCGridProbabilityStep(h=0.05, model=model, minimum_probability_step=0.1))
             for gname, grid in grids:
-                lv = rng.choice([0, 1]) if gname != "probstep" else 0
+                lv = rng.choice([0, 1])        # probability-step grids too: the refined grid's own middle (grid.h halved)
                 for _ in range(lv):
                     grid.refine()
                 ctx = dict(kind="real", model=spec, grid=gname, h=float(grid.h), axis=[float(x) for x in grid.axes[0]],
@@ -589,6 +597,79 @@ def _table_chain_group(res, rng, viol, n_tables):
     return ("chain2d", "list (Q * Q * Q * Q * Q) * list Q * nat * Q * list (list Q)",
             "fun c => match c with (ps, xs, o, lam, m) => Qeq_bool (intensity2 amid (step_mass2 ps) xs xs o) lam && "
             "qll_eqb (q_matrix2 amid (step_mass2 ps) xs xs o) m && Qeq_bool (qsum2 (q_matrix2 amid (step_mass2 ps) xs xs o)) lam end", cases)
+
+
+def clayton_F_nd(us, theta, eta):
+    """independent implementation of the d-dimensional Clayton Levy copula (Tankov, formula (7))"""
+    if any(u == 0 for u in us):
+        return 0.0
+    sgn = 1.0
+    for u in us:
+        sgn *= (1.0 if u > 0 else -1.0)
+    val = 2.0 ** (2 - len(us)) * sum(abs(u) ** (-theta) for u in us) ** (-1.0 / theta)
+    return val * (eta if sgn >= 0 else -(1.0 - eta))
+
+
+def _copula_3d(res, rng, viol):
+    """dimension 3: sum of the masses of all non-origin cells == reported intensity; every cell that straddles no axis is
+    compared with an independent inclusion-exclusion of the Clayton copula over the tail integrals of the truncated margins"""
+    from rpylib.process.markovchain.markovchainlevycopula import MarkovChainLevyCopula
+    from rpylib.distribution.sampling import SamplingMethod
+    from rpylib.grid.spatial import CTMCUniformGrid
+    from stepmeasure import step_spec, build_copula_model, build_model
+    from stepmeasure import random_step_measure as _rsm
+    import itertools, warnings
+    theta, eta = rng.choice([0.5, 1.25]), rng.choice([0.25, 0.6])
+    specs = []
+    for _ in range(3):
+        m = _rsm(rng, Fr(-2), Fr(2), bits=1, cover=True, max_pieces=3, zero_prob=0.0)
+        m.strict = False
+        specs.append(step_spec(m))
+    ctx = dict(kind="copula3d", margins=specs, theta=theta, eta=eta)
+    try:
+        with warnings.catch_warnings():
+            warnings.simplefilter("ignore")
+            model = build_copula_model(specs, "clayton", theta=theta, eta=eta)
+            grid = CTMCUniformGrid.create_from_fixed_nb_of_points(h=0.5, nb_of_points=4, dimension=3)
+            chain = MarkovChainLevyCopula(levy_copula_model=model, grid=grid, method=SamplingMethod.INVERSION)
+            ms = [build_model(sp).levy_triplet.nu for sp in specs]
+            ax = [float(x) for x in grid.axes[0]]
+            n, o = len(ax), grid.origin_coordinate.value[0]
+            l_r = [tuple(Fr(float(t)) for t in grid.truncations[k]) for k in range(3)]
+
+            def U(k, x):
+                nu, (lk, rk) = ms[k], l_r[k]
+                xq = Fr(float(x))
+                if xq >= 0:
+                    return float(nu.moment_q(min(xq, rk), rk, 0)) if xq < rk else 0.0
+                return -float(nu.moment_q(lk, max(xq, lk), 0)) if xq > lk else 0.0
+            lam, tot = float(chain.intensity_of_jumps), 0.0
+            for idx in itertools.product(range(n), repeat=3):
+                if idx == (o, o, o):
+                    continue
+                lo = tuple(0.5 * (ax[max(0, k - 1)] + ax[k]) for k in idx)
+                hi = tuple(0.5 * (ax[k] + ax[min(n - 1, k + 1)]) for k in idx)
+                got = float(chain.model.mass(lo, hi))
+                tot += got
+                res.count(("copula3d", idx), kind="copula chain cell (d=3)")
+                if got < -1e-12:
+                    viol("copula chain (d=3): negative rate", state=list(idx), got=got, **ctx)
+                    return
+                if all(i != o for i in idx):        # the cell straddles no axis: inclusion-exclusion over its 8 corners
+                    lo_t = [max(x, ax[0]) for x in lo]
+                    hi_t = [min(x, ax[-1]) for x in hi]
+                    want = 0.0
+                    for pick in itertools.product((0, 1), repeat=3):
+                        corner = [hi_t[k] if pick[k] else lo_t[k] for k in range(3)]
+                        want += (-1) ** sum(pick) * clayton_F_nd([U(k, corner[k]) for k in range(3)], theta, eta)
+                    if abs(got - want) > 1e-9 * (1 + lam):
+                        viol("copula chain (d=3): rate of a state differs from the independently computed mass of its cell",
+                             state=list(idx), got=got, want=want, **ctx)
+                        return
+            if abs(tot - lam) > 1e-9 * (1 + lam):
+                viol("copula chain (d=3): reported intensity differs from the sum of the cell masses", got=lam, want=tot, **ctx)
+    except Exception as e:  # noqa
+        viol(f"building the 3-d copula chain raises {type(e).__name__}", reason=str(e)[:200], **ctx)
 
 
 def search(res):
